@@ -56,6 +56,7 @@ fn subset_names(p: &Program, mask: u32) -> Vec<String> {
 }
 
 fn check_one(c: &Case, archive: &[u8], reference: &BTreeMap<String, Vec<u8>>, sched: &Schedule, rep: &mut Report) -> usize {
+    infra::watch_touch();
     let chosen = subset_names(&c.p, c.subset);
     rep.evaluations += 1;
     rep.transitions += 2;
@@ -229,6 +230,91 @@ fn missing_marker(p: &Program, rep: &mut Report) {
     }
 }
 
+/// The CLI's whole-archive extraction is the other user of linear_extract: its sinks are append-mode
+/// file writers kept in a pool of at most 1000 open files. Interleaved archives (which only the
+/// library can write) with 3, 40 and 1100 files in progress at once, extracted by the mlar binary
+/// built from the working tree, must give each file exactly its bytes.
+fn cli_linear(rep: &mut Report) {
+    use crate::cli::{self, Scratch};
+    let exe = cli::mlar_path("s");
+    if !exe.exists() {
+        rep.notes.push("mlar binary not built: CLI linear extraction not exercised".to_string());
+        return;
+    }
+    for nfiles in [3usize, 40, 1100] {
+        for layers in [L4::None, L4::Both] {
+            infra::watch_touch();
+            let mut ops: Vec<Op> = (0..nfiles).map(Op::Start).collect();
+            for round in 0..3 {
+                for i in 0..nfiles {
+                    ops.push(Op::Append(i, 1 + (i + round) % 5));
+                }
+            }
+            ops.extend((0..nfiles).map(Op::End));
+            let mut p = Program::new(ops, Entropy::Pattern);
+            p.names = (0..nfiles).map(|i| format!("d{}/file{i:04}", i % 7)).collect();
+            let cfg = Cfg::new(layers);
+            let Ok(Ok((archive, _))) = guard(|| prog::build(&p, &cfg)) else {
+                rep.count("archive_not_built(see C01)", 1);
+                continue;
+            };
+            let model = p.model();
+            let scratch = Scratch::new("c12");
+            let dir = scratch.path();
+            if std::fs::write(dir.join("a.mla"), &archive).is_err() {
+                continue;
+            }
+            let keyfile = dir.join("key.der");
+            let mut der = vec![0x30u8, 0x2e, 0x02, 0x01, 0x00, 0x30, 0x05, 0x06, 0x03, 0x2b, 0x65, 0x6e, 0x04, 0x22, 0x04, 0x20];
+            der.extend_from_slice(&crate::keys::secret(0).to_bytes());
+            let _ = std::fs::write(&keyfile, &der);
+            for form in ["linear", "glob"] {
+                rep.evaluations += 1;
+                rep.transitions += 1;
+                let h = fnv(format!("cli{nfiles}{layers:?}{form}").as_bytes());
+                rep.state(h);
+                rep.nontrivial(h);
+                let out = format!("out-{form}");
+                let mut args: Vec<String> = vec!["extract".into(), "-i".into(), "a.mla".into(), "-o".into(), out.clone()];
+                if layers.encrypted() {
+                    args.extend(["-k".to_string(), "key.der".to_string()]);
+                }
+                if form == "glob" {
+                    args.extend(["--glob".to_string(), "*".to_string()]);
+                }
+                let o = cli::run(&exe, dir, &args, None);
+                let replay = json!({"cli_linear": {"files": nfiles, "layers": layers.tag(), "form": form}});
+                rep.class(&format!("cli/{form}/{}/files={nfiles}", layers.tag()));
+                if !o.status.success() {
+                    rep.violate(Violation { sig: json!({"kind": "cli_extract_fails", "form": form}), detail: format!("mlar {args:?}: {:?} {}", o.status.code(), String::from_utf8_lossy(&o.stderr).chars().take(300).collect::<String>()), replay, weight: nfiles as u64 });
+                    continue;
+                }
+                let mut bad = 0usize;
+                let mut first = String::new();
+                for (n, d) in &model.files {
+                    match std::fs::read(dir.join(&out).join(n)) {
+                        Ok(got) if got == *d => {}
+                        other => {
+                            bad += 1;
+                            if first.is_empty() {
+                                first = format!("{n}: {:?} instead of {:?}", other.map(|g| String::from_utf8_lossy(&g).chars().take(40).collect::<String>()), String::from_utf8_lossy(d).chars().take(40).collect::<String>());
+                            }
+                        }
+                    }
+                }
+                if bad > 0 {
+                    rep.violate(Violation {
+                        sig: json!({"kind": "cli_linear_extraction_differs", "form": form}),
+                        detail: format!("mlar {args:?} on an archive of {nfiles} interleaved files ({}): {bad} extracted files differ from their content, e.g. {first}", layers.tag()),
+                        replay,
+                        weight: nfiles as u64,
+                    });
+                }
+            }
+        }
+    }
+}
+
 pub fn run(started: Instant) -> i32 {
     let thorough = infra::thorough();
     let mut progs: Vec<Program> = Vec::new();
@@ -270,6 +356,7 @@ pub fn run(started: Instant) -> i32 {
         infra::watch_idle();
     });
     rep.merge(rep2);
+    cli_linear(&mut rep);
     for k in [1usize, cases.len() / 2, cases.len() - 1] {
         rep.sample(json!({"program": cases[k].p.short(), "cfg": cases[k].cfg.json(), "subset": subset_names(&cases[k].p, cases[k].subset), "schedule": cases[k].sched.json()}));
     }
@@ -277,7 +364,7 @@ pub fn run(started: Instant) -> i32 {
         rep,
         Meta {
             level: "model_checking",
-            rule: "archives from the interleaving sweep and the complete program tree (<=3 files) x 4 layer combinations x subsets of names (all 8 subsets without compression; none / first / all with compression) x sink schedules (everything, 1 byte per call, 3 bytes per call; one deviation {1, half, all-but-one, Interrupted} at every sink call on 8 rich archives): real linear_extract into throttled sinks; each sink must hold exactly what get_file returns on a fresh reader. Missing end marker: for 8 programs and layers none/compress, the block stream cut at EVERY byte before the marker + the valid footer (compressed with the real layer writer): Ok only if an independent block walker also reaches a marker. non-trivial = proper subsets or non-default schedules, and all missing-marker cases".to_string(),
+            rule: "archives from the interleaving sweep and the complete program tree (<=3 files) x 4 layer combinations x subsets of names (all 8 subsets without compression; none / first / all with compression) x sink schedules (everything, 1 byte per call, 3 bytes per call; one deviation {1, half, all-but-one, Interrupted} at every sink call on 8 rich archives): real linear_extract into throttled sinks; each sink must hold exactly what get_file returns on a fresh reader. Missing end marker: for 8 programs and layers none/compress, the block stream cut at EVERY byte before the marker + the valid footer (compressed with the real layer writer): Ok only if an independent block walker also reaches a marker. CLI: library-written interleaved archives with 3 / 40 / 1100 files in progress at once (more than mlar's pool of 1000 open output files), layers none and both, extracted by the mlar binary (whole archive = linear path, and --glob '*'): every file must hold exactly its bytes. non-trivial = proper subsets or non-default schedules, and all missing-marker cases".to_string(),
             exhaustive: true,
             bounds: json!({"programs": progs.len(), "cases": cases.len(), "missing_marker_programs": mm.len()}),
             assumptions: vec!["scaled constants".to_string()],
@@ -288,6 +375,21 @@ pub fn run(started: Instant) -> i32 {
 
 pub fn replay(path: &str) -> i32 {
     let v = super::load_replay(path);
+    if v.get("cli_linear").is_some() {
+        let mut rep = Report::new();
+        cli_linear(&mut rep);
+        return match rep.violations.values().next() {
+            Some((_, v)) => {
+                println!("replay: {}", v.detail);
+                println!("VIOLATION property=C12 replay={path}");
+                1
+            }
+            None => {
+                println!("replay: CLI linear extraction agrees with the files");
+                0
+            }
+        };
+    }
     let p = Program::from_json(&v["program"]);
     let archive = hex::decode(v["archive_hex"].as_str().unwrap_or("")).unwrap_or_default();
     let chosen: Vec<String> = v["subset"].as_array().map(|a| a.iter().filter_map(|x| x.as_str().map(String::from)).collect()).unwrap_or_default();
